@@ -16,7 +16,9 @@ ALLOWED_AXIOMS = ()
 DEPENDS = ['C03']        # coq/Model/C14.v imports Model/C03.v and Gen/Facts_C03.v: regenerate them from the tree under check
 RULE = ('one case = one Configurator (exception classes with single/multiple inheritance, HTTP exceptions, PredicateMismatch, '
         'marker interfaces put on instances; 1-3 ordinary views + 0-6 add_view/add_exception_view/add_notfound_view/'
-        'add_forbidden_view declarations with contexts, route binding, predicates, exception_only; optionally more '
+        'add_forbidden_view declarations with contexts (explicit or from the view class\'s __view_defaults__), route binding, '
+        'predicates (incl. containment= / physical_path=, which look at request.context / the context argument), '
+        'exception_only; optionally more '
         'declarations committed after the first batch of requests) x 6-12 requests through Router.__call__, each with a '
         'raising site (view body, secured view, root factory, tween, unmatched URL), a tween under the excview tween '
         '(pass / raise / catch + invoke_exception_view(reraise=, secure=), on the request itself or on ANOTHER request '
@@ -88,6 +90,7 @@ ANCESTORS = {
     'G1': ['G1', 'E0', 'Exception'], 'G2': ['G2', 'E0', 'Exception'], 'DD': ['DD', 'G1', 'G2', 'E0', 'Exception'],
 }
 MARKS = ['IM1', 'IM2']
+CONT = ['Root', 'IPlain']         # containment= values; ids = positions
 ROUTES = ['r1', 'r2']
 VNAMES = ['', 'v', 'zz']
 PARAM_KEYS = ['k', 'j']
@@ -117,7 +120,8 @@ def facts(src):
 def gen_preds(rng, k=None):
     if k is None:
         k = rng.choice([0, 0, 0, 1, 1, 2, 3])
-    names = rng.sample(['xhr', 'request_method', 'request_param', 'custom', 'match_param', 'header'], min(k, 6))
+    names = rng.sample(['xhr', 'request_method', 'request_param', 'custom', 'match_param', 'header', 'containment',
+                        'physical_path'], min(k, 8))
     p = {}
     for n in names:
         if n == 'xhr':
@@ -130,6 +134,10 @@ def gen_preds(rng, k=None):
             p[n] = rng.choice(['lang=en', 'lang=en', 'lang=fr'])
         elif n == 'header':
             p[n] = rng.choice(['X-Foo', 'X-Foo:ba.'])
+        elif n == 'containment':
+            p[n] = rng.choice(['Root', 'Root', 'IPlain'])       # the traversed resource is / is not inside
+        elif n == 'physical_path':
+            p[n] = '/'
         else:
             p[n] = [[rng.randrange(4), rng.random() < 0.2] for _ in range(rng.choice([1, 1, 2]))]
     return p
@@ -155,7 +163,7 @@ def _norm_under(u):
 
 def _exc_decl(v):
     """the declaration can register an exception view"""
-    return v['dir'] != 'view' or v['ctx'] in EXC_CTX_NAMES
+    return v['dir'] != 'view' or v['ctx'] in EXC_CTX_NAMES or (v['ctx'] is None and v.get('defctx') in EXC_CTX_NAMES)
 
 
 def gen_case(rng):
@@ -198,6 +206,11 @@ def gen_case(rng):
              'route': rng.choice(rnames) if (rnames and rng.random() < 0.35) else None,
              'preds': gen_preds(rng), 'perm': d == 'view' and rng.random() < 0.3, 'phase': 0, 'tag': tag,
              'body': gen_body(rng, excs, True)}
+        if d in ('view', 'exc') and rng.random() < 0.2 or d in ('nf', 'fb') and rng.random() < 0.05:
+            # a class-based view whose class carries @view_defaults(context=...); mostly registered without context=
+            v['defctx'] = rng.choice(pool)
+            if d in ('view', 'exc') and rng.random() < 0.7:
+                v['ctx'] = None
         if not _exc_decl(v):
             v['body'] = gen_body(rng, excs, False)
         tag += 1
@@ -271,6 +284,8 @@ def valid(case):
                 return False
             if not (v['ctx'] is None or v['ctx'] in CTX_NAMES) or not (v['route'] is None or v['route'] in rn):
                 return False
+            if not (v.get('defctx') is None or v['defctx'] in CTX_NAMES):
+                return False
             if v['dir'] != 'view' and (v['xonly'] or v['perm'] or v['name']):
                 return False
             if v['dir'] in ('nf', 'fb') and v['ctx'] is not None:
@@ -295,6 +310,12 @@ def valid(case):
                         return False
                 elif n == 'header':
                     if val not in ('X-Foo', 'X-Foo:ba.'):
+                        return False
+                elif n == 'containment':
+                    if val not in CONT:
+                        return False
+                elif n == 'physical_path':
+                    if val != '/':
                         return False
                 elif n == 'custom':
                     if not (isinstance(val, list) and val and all(
@@ -344,8 +365,8 @@ def shrinks(case):
             p = dict(v['preds'])
             del p[n]
             yield put(dict(v, preds=p))
-        for k, simple in (('route', None), ('perm', False), ('phase', 0), ('xonly', False)):
-            if v[k] != simple:
+        for k, simple in (('route', None), ('perm', False), ('phase', 0), ('xonly', False), ('defctx', None)):
+            if v.get(k, simple) != simple:
                 yield put(dict(v, **{k: simple}))
         if v['body']['touch']:
             yield put(dict(v, body=dict(v['body'], touch=False)))
@@ -546,6 +567,9 @@ class World:
                     wv.append([nt, [3, i, '']])
                 kw['custom_predicates'] = tuple(vals)
                 mkw.append(['custom', wv])
+            elif n == 'containment':
+                kw[n] = P['classes'][val]
+                mkw.append([n, [[False, [3, CONT.index(val), str(kw[n])]]]])
             elif isinstance(val, bool):
                 kw[n] = val
                 mkw.append([n, [[False, [0, val]]]])
@@ -556,12 +580,29 @@ class World:
                 kw[n] = tuple(val)
                 mkw.append([n, [[False, [2, list(val)]]]])
         ctxobj = self.ctx_obj(v['ctx'])
+        defobj = self.ctx_obj(v.get('defctx'))
+        if defobj is not None:
+            # class-based view with class-level defaults (@view_defaults(context=...)); an argument that is not passed
+            # takes the class default, so context= is passed only when the declaration has one
+            fn = body
+
+            class Cls:
+                __view_defaults__ = {'context': defobj}
+
+                def __init__(self, context, request):
+                    self.context, self.request = context, request
+
+                def run(self):
+                    return fn(self.context, self.request)
+            body = Cls
+            kw['attr'] = 'run'
+        ckw = {} if (defobj is not None and ctxobj is None) else {'context': ctxobj}
         try:
             if v['dir'] == 'view':
-                self.cfg.add_view(body, context=ctxobj, name=v['name'], route_name=v['route'], exception_only=v['xonly'],
-                                  permission='p' if v['perm'] else None, **kw)
+                self.cfg.add_view(body, name=v['name'], route_name=v['route'], exception_only=v['xonly'],
+                                  permission='p' if v['perm'] else None, **ckw, **kw)
             elif v['dir'] == 'exc':
-                self.cfg.add_exception_view(body, context=ctxobj, route_name=v['route'], **kw)
+                self.cfg.add_exception_view(body, route_name=v['route'], **ckw, **kw)
             elif v['dir'] == 'nf':
                 self.cfg.add_notfound_view(body, route_name=v['route'], **kw)
             else:
@@ -575,7 +616,8 @@ class World:
         act = v['body']['act']
         wact = [0] if act[0] == 'ret' else [1] if act[0] == 'ctx' else [2, act[1]]
         return [DIRS.index(v['dir']), [] if ctxobj is None else [self.iid(self.spec_of(ctxobj))], v['xonly'],
-                _ctxbits(ctxobj), args, v['phase'], [v['body']['touch'], wact, v['perm']]]
+                _ctxbits(ctxobj), args, v['phase'], [v['body']['touch'], wact, v['perm']],
+                [] if defobj is None else [self.iid(self.spec_of(defobj))], _ctxbits(defobj)]
 
     # ---- exceptions
     def make_exc(self, i):
@@ -636,7 +678,7 @@ class World:
         headers = [['X-Foo', xf]] if xf is not None else []
         rx = [['ba.', xf, re.compile('ba.').match(xf) is not None]] if xf is not None else []
         md = [[['lang', r.get('lang', 'en')]]] if r['route'] else []
-        rq = [r['method'], params, headers, r['xhr'], md, False, req.upath_info, [['', []]], True,
+        rq = [r['method'], params, headers, r['xhr'], md, False, req.upath_info, [['', [0]]], True,
               rx, [], sorted(r['truth']), rsro, csro, r['vname']]
         u = _norm_under(r['under'])
         wu = [0] if u[0] == 'pass' else [1, u[1]] if u[0] == 'raise' else [3] if u[0] == 'retry' else \
@@ -648,7 +690,7 @@ class World:
             # *traverse route still decides the traversal path of the second one
             vn2 = r['vname'] if r['route'] else u[1]
             r2sro = [self.iid(i) for i in P['IRequest'].__sro__]
-            rq2 = [[r['method'], params, headers, r['xhr'], md, False, '/' + u[1], [['', []]], True,
+            rq2 = [[r['method'], params, headers, r['xhr'], md, False, '/' + u[1], [['', [0]]], True,
                     rx, [], sorted(r['truth']), r2sro, csro, vn2]]
         unr = [self.iid(i) for i in P['IRequest'].combined.__sro__]
         return [r['phase'], rq, rq2, comb, unr, r['deny'], [] if r['root_raise'] is None else [r['root_raise']], wu,
@@ -897,6 +939,8 @@ def kinds(case, obs):
         for n in v['preds']:
             if v['dir'] in ('nf', 'fb', 'exc'):
                 dirs.add('decl:%s-with-%s' % (v['dir'], n))
+        if v.get('defctx') is not None:
+            dirs.add('decl:class-defaults-%s%s' % (v['dir'], '' if v['ctx'] is None else '-explicit-context'))
     k += sorted(dirs)
     if any(x['marks'] for x in case['excs']):
         k.append('exc:marked-instance')
